@@ -8,6 +8,11 @@ CLAIMED = {
    note="Trusted: spec.rs is hand-transcribed from the vhost-user / vhost-user-gpu specifications (the sandbox has no copy of the text), refpred.rs for 'the API must reject locally', fstat/fdinfo identities for 'same open file'. Spec-silent bytes (padding of the inflight description, payload of the SET_LOG_BASE reply) are masked. Messages the crate does not implement are only checked to be rejected (C04/C05).",
    technique="differential property testing (proptest + enumeration) of real endpoints against an independent specification codec via a raw socket peer",
    ref="DESIGN.md section 3, C01"),
+ "C02": dict(level="exploration",
+   text="Stateful property testing of the real Frontend against the real BackendReqHandler (library Mutex adapter over a recording handler, served with the daemon's stop-at-first-error policy): 2500 sessions of up to 24 calls over all public operations with generated protocol-valid arguments after a generated negotiation; every call is judged by a model of what the API accepts: accepted => exactly one new handler entry with equal operation, scalars, payload bytes and descriptor identities (fstat / eventfd-id), present before the call returns when a reply/ack is awaited; rejected => error and nothing reaches the server; lent descriptors stay open. Plus 20000 locally-rejected candidates against a raw peer (byte count on the wire) and 3000 sequences through the RwLock/RefCell VhostBackend adapters over a recording VhostBackendMut.",
+   note="Trusted: feops.rs (operation model: local-rejection rules from the property text, expected handler invocation), fstat/fdinfo identities instead of kcmp (not available). 'Accepted arguments' are protocol-valid ones; SET_LOG_FD and SET_LOG_BASE without shmfd region cannot be served by this back-end server and are skipped in sessions. Handler results are always success here (C03 covers failures).",
+   technique="model-based (stateful) property testing with proptest sessions across both real endpoints + raw-peer byte accounting",
+   ref="DESIGN.md section 3, C02"),
  "C04": dict(level="exploration",
    text="Model-based testing of the real BackendReqHandler: every word up to depth 3 (quick) / 4 (thorough) over a 21-symbol reduced alphabet x {protocol features offered or not} is executed exhaustively, plus thousands of random histories (length <= 12) over all 44 request codes with generated bodies, NEED_REPLY flags and scripted handler outcomes; the bytes the server writes are compared frame by frame with a reference protocol model and a sentinel request proves exact consumption. Histories are an unbounded space, so bounded-exhaustive + random exploration is the level claimed.",
    note="Trusted: spec.rs (request table and layouts transcribed from the vhost-user specification), the protocol model in props/c04.rs. Stated tolerances: the SET_PROTOCOL_FEATURES that flips REPLY_ACK may or may not be acked; requests rejected before the handler may produce nothing or one non-zero ack; SET_LOG_BASE reply payload and the 4 padding bytes of the inflight description are spec-silent.",
